@@ -46,9 +46,10 @@ def tree_key(repo=REPO):
     return h.hexdigest()[:24]
 
 
-def _extract(outdir, repo):
+def _extract(outdir, repo, target=None):
     t0 = time.time()
-    r = subprocess.run([os.path.join(VERIF, "bin/facts.sh"), outdir, repo], capture_output=True, text=True)
+    cmd = [os.path.join(VERIF, "bin/facts.sh"), outdir, repo] + ([target] if target else [])
+    r = subprocess.run(cmd, capture_output=True, text=True)
     if r.returncode != 0:
         raise Broken("fact extraction failed:\n" + r.stderr[-3000:])
     return time.time() - t0
@@ -83,6 +84,30 @@ def load_facts(repo=REPO, force=False):
         lock.close()
     F = Facts(raw)
     F.extracted_now = extracted
+    return F
+
+
+def load_facts_uncached(repo, slot):
+    """Facts of a scratch tree (mutant runs): own target directory per worker slot, nothing cached.  Workers with different
+    slots run in parallel; two users of one slot are serialised by a lock on the slot's target directory."""
+    import shutil
+    import tempfile
+    target = os.path.join(CACHE, f"target-m{slot}")
+    os.makedirs(CACHE, exist_ok=True)
+    lock = open(os.path.join(CACHE, f".lock-m{slot}"), "w")
+    fcntl.flock(lock, fcntl.LOCK_EX)
+    d = tempfile.mkdtemp(prefix="facts-", dir=repo)
+    try:
+        secs = _extract(d, repo, target)
+        raw = _parse(d)
+        raw["extract_s"] = secs
+        raw["key"] = "uncached:" + os.path.basename(repo)
+    finally:
+        shutil.rmtree(d, ignore_errors=True)
+        fcntl.flock(lock, fcntl.LOCK_UN)
+        lock.close()
+    F = Facts(raw)
+    F.extracted_now = True
     return F
 
 
